@@ -115,6 +115,9 @@ func tagToField(input reflect.Value, tagType TagType) map[string]reflect.Value {
 			names = append(names, multirefs...)
 
 			for _, name := range names {
+				if name == "" {
+					continue
+				}
 				ttf[name] = field
 			}
 		case Doc:
